@@ -603,6 +603,84 @@ def top_fill_sessions(bits, variant="default"):
     return [a, b]
 
 
+def crash_continue_cases(confs, rng, per_conf=3):
+    """a history over THREE mounts: session 1 writes a file, flushes it, writes on (more clusters are linked in the table) and
+    ends WITHOUT drop / unmount (`forget`: a power cut - the entry on disk keeps the flushed size, the chain is longer);
+    session 2 opens the file, reads it (R1), then through one handle - after reading to the end, or seeking to the end - appends
+    the bytes C, flushes, drops; power cut again; session 3 reads the file (R2), removes it, asks for statistics.
+    What must hold: R2 = R1 ++ C (C02, C14: what a flush has returned for survives) and the free count after the removal equals
+    the count of the empty volume (C05: remove gives back ALL clusters of the chain, also those behind the recorded size).
+    Returns a list of dicts: script, cs, i_stats0, i_r1, i_r2, i_stats1, c_hex, label."""
+    out = []
+    for conf in confs:
+        toks = conf[2].split()
+        bps = 512 if toks[1] == "-" else int(toks[1]); cs = bps if toks[3] == "-" else int(toks[3])
+        for k in range(per_conf):
+            a_len = rng.choice([cs, 2 * cs, cs, 3 * cs, cs + 100, 5])
+            b_len = rng.choice([2 * cs + 7, cs, 3 * cs])
+            c = bytes((0x43 + (i % 7)) for i in range(rng.choice([50, cs, 2 * cs + 10, 1])))
+            pre = rng.choice(["read", "read", "seekend", "start-read", "none"])
+            nm = hexs("crash survivor.bin")
+            sc = ["dev %d 0" % conf[1], "wlog 0", conf[2], "pages", "wlog 1", "mount 1 0 lossy", "stats",
+                  "create_file 0 %s 1" % nm, "write_pat 1 %d 65" % a_len, "flush 1", "write_pat 1 %d 66" % b_len, "forget",
+                  "mount 1 0 lossy", "open_file 0 %s 2" % nm, "read_all 2 1000000", "drop_file 2", "open_file 0 %s 3" % nm]
+            i_stats0 = 6; i_r1 = 14
+            if pre == "read":
+                sc += ["read_all 3 1000000"]
+            elif pre == "seekend":
+                sc += ["seek 3 end 0"]
+            elif pre == "start-read":
+                sc += ["seek 3 start 0", "read_all 3 1000000", "seek 3 end 0"]
+            else:
+                sc += ["seek 3 start %d" % a_len]
+            sc += ["write_all 3 %s" % c.hex(), "flush 3", "drop_file 3", "forget", "mount 1 0 lossy", "open_file 0 %s 4" % nm, "read_all 4 1000000"]
+            i_r2 = len(sc) - 1
+            sc += ["drop_file 4", "remove 0 %s" % nm, "stats"]
+            i_stats1 = len(sc) - 1
+            sc += ["unmount"]
+            out.append({"script": sc, "cs": cs, "i_stats0": i_stats0, "i_r1": i_r1, "i_r2": i_r2, "i_stats1": i_stats1, "c_hex": c.hex(),
+                        "label": "%s a=%d b=%d c=%d pre=%s" % (conf[0], a_len, b_len, len(c), pre), "a_len": a_len})
+    return out
+
+
+def crash_continue_verdict(case, ops):
+    """-> (content_ok, capacity_ok, text) for one executed crash_continue case; None values when the script did not get that far"""
+    bad = [o for o in ops if o.kind in ("panic", "hang", "bad")]
+    if bad:
+        return (False, False, "%s -> %s" % (bad[0].line[:40], bad[0].kind))
+    r1, r2, s0, s1 = ops[case["i_r1"]], ops[case["i_r2"]], ops[case["i_stats0"]], ops[case["i_stats1"]]
+    if any(o.kind != "ok" for o in (r1, r2, s0, s1)):
+        k = [o for o in (r1, r2, s0, s1) if o.kind != "ok"][0]
+        return (False, False, "%s -> %s %s" % (k.line[:40], k.kind, k.payload[:30]))
+    content_ok = (r2.payload == r1.payload + case["c_hex"]) and len(r1.payload) == 2 * case["a_len"]
+    capacity_ok = s0.payload.split()[2] == s1.payload.split()[2]
+    text = "flushed size %d, read back %d bytes before and %d after appending %d; free clusters %s when empty, %s after removing the file" % (
+        case["a_len"], len(r1.payload) // 2, len(r2.payload) // 2, len(case["c_hex"]) // 2, s0.payload.split()[2], s1.payload.split()[2])
+    return (content_ok, capacity_ok, text)
+
+
+def run_crash_continue(rep, prop, rng, tier, clause):
+    """runs the crash_continue family and reports, for property [prop], the violations of [clause] ("content" | "capacity")"""
+    names = ("fat12-small", "fat12-c2k", "fat16-min", "fat32-min") if tier == "quick" else ("fat12-small", "fat12-1fat", "fat12-c2k", "fat12-s1k", "fat16-min", "fat16-c2k-1fat", "fat32-min")
+    confs = [c for c in configs(tier) if c[0] in names]
+    cases = crash_continue_cases(confs, rng, 3 if tier == "quick" else 24)
+    res = vlib.run_scripts([c["script"] for c in cases])
+    nbad = 0
+    for c, ops in zip(cases, res):
+        rep.count()
+        content_ok, capacity_ok, text = crash_continue_verdict(c, ops)
+        ok = content_ok if clause == "content" else capacity_ok
+        if ok:
+            rep.distinct(("crash-continue", c["label"]))
+        elif nbad < 3:
+            nbad += 1
+            what = ("the file does not read back as what it held before plus the appended, flushed bytes" if clause == "content"
+                    else "removing the file did not give back all of its clusters")
+            rep.violation("[%s crash-continue %s] power cut after flush + further writes, next session appends and flushes, power cut, third session: %s (%s)"
+                          % (prop, c["label"], what, text), {"script": c["script"]})
+    rep.cov["crash_continue_cases"] = len(cases)
+
+
 def fat32_high_cluster_session(rng):
     """FAT32 with more than 65536 clusters and the next-free hint of the information sector beyond cluster 0xFFFF: first
     clusters of new files and directories need the high word of the entry; truncation to nothing, re-allocation after the hint
